@@ -137,8 +137,8 @@ impl ParseError {
             true => index + ERR_CHAR_VIEW_RANGE + 1,
             false => env.len(),
         };
-        // 截取字符，生成环境
-        env[char_range_left..char_range_right].into()
+        // 截取字符，生成环境 | 头索引可能已越过环境末尾（如跳过未闭合的括弧之后），故下限不得超过上限
+        env[char_range_left.min(char_range_right)..char_range_right].into()
     }
 
     /// 构造函数
